@@ -22,6 +22,10 @@ CONSTANTS
   WsLens,     \* set of lengths of whitespace-only lines (in characters of Unit[1]); {} = none
   Blank,      \* TRUE: empty lines allowed
   Suffix,     \* text appended to every code line (e.g. a multi-byte character), <<>> for none
+  Preamble,   \* number of filler code lines "p<i>;" in front of the generated document (pushes line numbers up)
+  InlineTags, \* TRUE: an opening tag may follow code on its line ("c1; <tag>") and code may follow a closing tag
+              \*       ("</tag>d  1;"): elements whose tags share lines with code
+  PairKind,   \* kind of the two elements of a pair line
   PairLines,  \* TRUE: lines holding two touching ready inline elements "<rm..>i</rm><rm..>j</rm>" may be added
   MaxCode,    \* maximal number of code lines
   EmptyDefault, \* TRUE: default-strategy elements are closed right after they are opened (two-line blocks)
@@ -52,6 +56,15 @@ Open     == /\ Len(stack) < D /\ nel < E
                  /\ lines' = Append(lines, [k |-> "open", ind |-> i, n |-> nel + 1, kind |-> kd])
                  /\ stack' = Append(stack, <<kd, i>>)
             /\ nel' = nel + 1
+OpenInl  == /\ InlineTags /\ Len(stack) < D /\ nel < E
+            /\ \E kd \in Kinds, i \in Inds :
+                 /\ lines' = Append(lines, [k |-> "copen", ind |-> i, n |-> nel + 1, kind |-> kd])
+                 /\ stack' = Append(stack, <<kd, i>>)
+            /\ nel' = nel + 1
+CloseInl == /\ InlineTags /\ stack # <<>>
+            /\ lines' = Append(lines, [k |-> "cclose", ind |-> stack[Len(stack)][2], n |-> Len(lines) + 1, kind |-> stack[Len(stack)][1]])
+            /\ stack' = SubSeq(stack, 1, Len(stack) - 1)
+            /\ UNCHANGED nel
 Close    == /\ stack # <<>>
             /\ lines' = Append(lines, [k |-> "close", ind |-> stack[Len(stack)][2], n |-> 0, kind |-> stack[Len(stack)][1]])
             /\ stack' = SubSeq(stack, 1, Len(stack) - 1)
@@ -62,7 +75,7 @@ InDefault == stack # <<>> /\ ~stack[Len(stack)][1][2]
 
 Next == /\ Len(lines) < L
         /\ IF EmptyDefault /\ InDefault THEN Close
-           ELSE (CodeCount < MaxCode /\ AddCode) \/ AddPair \/ AddBlank \/ AddWs \/ Open \/ Close
+           ELSE (CodeCount < MaxCode /\ AddCode) \/ AddPair \/ AddBlank \/ AddWs \/ Open \/ Close \/ OpenInl \/ CloseInl
 
 \* a document can only be completed if the open elements can still be closed
 Feasible == Len(lines) + Len(stack) <= L
@@ -93,8 +106,10 @@ Indent(k) == IF k <= 0 THEN <<>> ELSE Unit \o Indent(k - 1)
 LineTextOf(l) ==
   IF l.k = "code" THEN Indent(l.ind) \o (IF MbCode THEN <<12354 + l.n, 233, 128512 + l.n>>                  \* 3-, 2-, 4-byte
                                           ELSE <<99>> \o CodeA \o Digits(l.n) \o CodeB \o <<59>>) \o Suffix  \* c<n>;
-  ELSE IF l.k = "pair" THEN Indent(l.ind) \o OpenTag(<<"R", FALSE>>, 90 + l.n) \o <<105>> \o Digits(l.n) \o CloseTag(<<"R", FALSE>>)
-                                          \o OpenTag(<<"R", FALSE>>, 190 + l.n) \o <<106>> \o Digits(l.n) \o CloseTag(<<"R", FALSE>>)
+  ELSE IF l.k = "pair" THEN Indent(l.ind) \o OpenTag(PairKind, 90 + l.n) \o <<105>> \o Digits(l.n) \o CloseTag(PairKind)
+                                          \o OpenTag(PairKind, 190 + l.n) \o <<106>> \o Digits(l.n) \o CloseTag(PairKind)
+  ELSE IF l.k = "copen" THEN Indent(l.ind) \o <<111>> \o Digits(l.n) \o <<59, 32, 123, 32>> \o OpenTag(l.kind, l.n)          \* o<n>; { <tag>
+  ELSE IF l.k = "cclose" THEN Indent(l.ind) \o CloseTag(l.kind) \o <<100, 32, 32, 32, 61, 32>> \o Digits(l.n) \o <<59>>      \* </tag>d   = <n>;
   ELSE IF l.k = "blank" THEN <<>>
   ELSE IF l.k = "ws" THEN RepeatCh(Unit[1], l.ind)
   ELSE IF l.k = "open" THEN Indent(l.ind) \o OpenTag(l.kind, l.n)
@@ -104,7 +119,10 @@ RECURSIVE JoinLines(_, _)
 JoinLines(ls, i) == IF i > Len(ls) THEN <<>>
                     ELSE LineTextOf(ls[i]) \o (IF i < Len(ls) THEN <<NL>> ELSE <<>>) \o JoinLines(ls, i + 1)
 
-GenDoc == JoinLines(lines, 1)
+RECURSIVE Fillers(_)
+Fillers(i) == IF i > Preamble THEN <<>> ELSE <<112>> \o Digits(i) \o <<59, NL>> \o Fillers(i + 1)            \* p<i>;
+
+GenDoc == Fillers(1) \o JoinLines(lines, 1)
 Shape == [i \in 1..Len(lines) |-> <<lines[i].k, lines[i].ind>> \o lines[i].kind]
 
 Complete == stack = <<>> /\ lines # <<>> /\ (nel >= 1 \/ \E i \in 1..Len(lines) : lines[i].k = "pair")
